@@ -66,12 +66,12 @@ register("C20", "exploration",
 register("C07", "exploration",
          "Bounded: the representation invariant `wired` (from the property statement) is monitored after every call of exhaustive short and random long sequences of construction-API calls with valid and invalid arguments; rejected calls must leave the edge set unchanged and raise ValueError (KeyError tolerated only for set_output of an absent node).",
          "oracle = vlib.spec.wired_violations; scope in evidence.bound",
-         explanation="bounded stand-in of the C07 invariant")
+         proof=True, explanation="bounded stand-in of the C07 invariant")
 
 register("C12", "exploration",
          "Bounded: every listed graph query is compared with an independent graph-theoretic definition on all DAGs up to 5 nodes, small cyclic digraphs and random circuits, for single nodes and node lists.",
          "oracles = small reachability / longest-path routines in bounded/c12.py; scope in evidence.bound",
-         explanation="bounded stand-in of the C12 contracts")
+         proof=True, explanation="bounded stand-in of the C12 contracts")
 
 register("C13", "exploration",
          "Bounded: generated adders/muxes/popcounts are simulated (independent simulator) against integer arithmetic exhaustively for small widths and on random vectors up to width 64; clog2 against integer bit_length on all small n and around every power of two up to 2^80; bit helpers round-trip; every block lint-clean.",
@@ -109,7 +109,7 @@ register("C18", "exploration",
 register("C19", "exploration",
          "Bounded: ~70 call recipes covering every public function of tx/props/sat/io writers/lint and the read-only Circuit methods (normal and raising argument shapes) are run on random circuits; deep snapshots before/after, object-identity checks on graph/attribute/adjacency dicts and registry, and an edit battery in both directions.",
          "snapshot = nodes+attributes+edges+name+registry (vlib.circ.snapshot); scope in evidence.bound",
-         explanation="bounded stand-in of the frame/no-alias contract")
+         proof=True, explanation="bounded stand-in of the frame/no-alias contract")
 
 register("C02", "exploration",
          "Bounded: generated netlists of the structural subset (precedence families, random expression trees, primitive and blackbox instances, shuffled order, fuzzed layout, comments, synthetic-looking names, port mismatches) are parsed by the real pipeline and compared net by net, under every valuation, with an independent evaluator of the subset.",
